@@ -104,7 +104,16 @@ def compare(s, o, kind):
         if quick is not None:
             return quick
         return SymBool(('lazy', f, a, b), rt, rf)
-    return mkbool(f(a, b), rt, rf)
+    r = mkbool(f(a, b), rt, rf, simp=(a.sz + b.sz) < 60)
+    if a.op == '<<' and a.a[0].op in ('bits', '>>'):
+        a = a.a[0]
+    if kind in ('ne', 'eq') and isinstance(r, SymBool) and b.op == 'c' and b.a[0] == 0:
+        # single-bit test: remembered so that an if-converted `x ^= K` can narrow its interval
+        if a.op == 'bits' and a.a[2] == 1 and a.lo == 0:
+            r.meta = ('bit', a.a[0], a.a[1], kind == 'ne')
+        elif a.op == '>>' and a.lo == 0 and a.hi == 1:
+            r.meta = ('bit', a.a[0], a.a[1], kind == 'ne')
+    return r
 
 
 class SymInt(object):
@@ -312,7 +321,26 @@ def ite(cond, a, b):
         return a
     if cond is False:
         return b
-    return mk(ir.ite(cond.z(), lift(a), lift(b)))
+    na, nb = lift(a), lift(b)
+    m = getattr(cond, 'meta', None)
+    if m is not None and m[0] == 'bit':
+        # cond tests the top possible bit k of X (0 <= X < 2^(k+1)): under cond, X ^ K with bit k of K set
+        # is < 2^k; under not cond, X itself is < 2^k  (the LFSR / CRC step idiom)
+        _, X, k, sense = m
+        if X.lo >= 0 and X.hi < (1 << (k + 1)):
+            top = (1 << k) - 1
+
+            def narrow(n, bit_is_set):
+                if ir._base(n) is ir._base(X):
+                    return n if bit_is_set else ir.refine(n, 0, top)
+                if n.op == '^' and bit_is_set:
+                    for p, q in ((n.a[0], n.a[1]), (n.a[1], n.a[0])):
+                        if ir._base(p) is ir._base(X) and q.op == 'c' and (q.a[0] >> k) == 1:
+                            return ir.refine(n, 0, top)
+                return n
+            na = narrow(na, sense)
+            nb = narrow(nb, not sense)
+    return mk(ir.ite(cond.z(), na, nb))
 
 
 def _intlike(x):
